@@ -284,6 +284,9 @@ func (w *World) connect(owner string, laddr, raddr *net.TCPAddr) (*TCPConn, erro
 		return nil, opErr("dial", "tcp", nil, raddr, e)
 	}
 	vrt.Log("tcp.connect", laddr.String(), raddr.String(), 0)
+	if owner == "srv" {
+		vrt.Log("srv.tcp.out", laddr.String(), raddr.String(), 0)
+	}
 	l := w.findListener(raddr.IP, raddr.Port, raddr.Zone)
 	if l == nil {
 		return nil, opErr("dial", "tcp", nil, raddr, errRefused)
@@ -977,6 +980,9 @@ func (u *UDPConn) WriteTo(b []byte, addr net.Addr) (int, error) {
 	}
 	u.Sent++
 	vrt.Log("udp.sendto", src.String(), ua.String(), int64(len(b)))
+	if u.Owner == "srv" && u.local.Port >= 40000 {
+		vrt.Log("srv.udp.out", src.String(), ua.String(), int64(len(b)))
+	}
 	dst := u.w.findUDP(ua)
 	if dst == nil {
 		vrt.Log("udp.lost", src.String(), ua.String(), int64(len(b)))
